@@ -40,6 +40,7 @@ PROPS = {
         assumptions=[A['A5p'], A['A7'], "laws of f12pow in specs/f12pow.vrs (ring theory of the commutative ring of specs/tower.vrs)", A['D_FQ'], A['TOOLS']],
     ),
     'C01': dict(
+        standins=['batch_normalization'],
         units_quick=['curve'], units_thorough=['curve'], timeout=600,
         claim="curve_impl! point formulas (real bodies, both instantiations): double, add_assign, add_assign_mixed satisfy the chord-and-tangent law of "
               "y^2 = x^3 + b case by case (P = O, Q = O, same point -> tangent relations, opposite points -> O, otherwise chord relations with Z3 != 0), "
@@ -62,6 +63,7 @@ PROPS = {
                      "trait contracts of OSSWUMap / IsogenyMap / ClearH / SubgroupCheck are assumed in unit h2c; ClearH's is proved in unit cofactor, add_assign's in unit curve", A['TOOLS']],
     ),
     'C05': dict(
+        standins=['encoders_api'],
         units_quick=['encode', 'codec'], units_thorough=['encode', 'codec', 'recover', 'order', 'consts'], timeout=600,
         claim="the four encoders (real bodies of EncodedPoint::from_affine and empty for G1/G2, compressed/uncompressed) return exactly the byte strings enc_* of "
               "specs/encode.vrs, written from the property statement: fixed lengths 96/48/192/96 (array types), big-endian 48-byte coordinates, c1 before c0, "
@@ -77,6 +79,7 @@ PROPS = {
                      "A-FIELD: Fq and Fq2 are fields (a square has only the roots y, -y)", "A-ODD: neither curve has a point with y = 0 (numerically re-checked each run: -b is not a cube)", A['TOOLS']],
     ),
     'C06': dict(
+        standins=['expand_message_hash_to_field'],
         units_quick=['h2c'], units_thorough=['h2c', 'cofactor', 'curve'], timeout=600,
         claim="PARTIAL (composition only): hash_to_curve(msg,dst) = map2_to_curve(u[0],u[1]) with u = hash_to_field(msg,dst,2) and encode_to_curve = "
               "map_to_curve(hash_to_field(msg,dst,1)[0]): element count, indices and which map are verified on the real generic bodies; the result is "
@@ -95,6 +98,7 @@ PROPS = {
         assumptions=[A['A3'], A['A4'], "ff::BitIterator contract (MSB-first bits of the limb value) assumed: dependency", A['D_FQ'], A['TOOLS']],
     ),
     'C02': dict(
+        standins=['wnaf_contexts_precomp_3'],
         units_quick=['scalar', 'precomp', 'wnaf'], units_thorough=['scalar', 'precomp', 'wnaf', 'curve'], timeout=600,
         claim="PARTIAL: the plain scalar-multiplication paths (real bodies, G1 and G2): affine mul_bits / mul (double and mixed add, MSB first) and "
               "projective mul_assign (leading-zero skipping) return [k]P for every limb value k of the scalar representation (all 2^256 values, any limb "
@@ -175,6 +179,7 @@ PROPS = {
         assumptions=["Kani 0.68 / CBMC 6.11; the unsafe transmute constructor pairing::bls12_381::transmute::{fq, fr} and mem::transmute_copy are used to move raw limbs in and out", "rustc codegen (MIR -> goto)"],
     ),
     'C10': dict(
+        standins=['sum_of_products'],
         units_quick=['kani:window', 'scalar', 'precomp'], units_thorough=['kani:window', 'scalar', 'precomp'], timeout=3000,
         technique="Kani/CBMC full-domain harness for the window heuristic; Verus composition contract for the entry point",
         claim="PARTIAL: find_pippinger_window (G1 and G2) returns, for every usize number of components, a window in 1..=16 equal to the documented table and "
@@ -185,6 +190,7 @@ PROPS = {
         assumptions=["Kani 0.68 / CBMC 6.11", A['TOOLS']],
     ),
     'C13': dict(
+        standins=['expand_message_hash_to_field'],
         units_quick=['okm', 'consts'], units_thorough=['okm', 'consts'], timeout=600,
         claim="PARTIAL (the reductions and the block splitting): Fq::from_okm(b) = be(b) mod q for every 64-byte block and Fr::from_okm(b) = be(b) mod r for every "
               "48-byte block (real bodies: two zero-padded big-endian reads, multiplication by the crate's constant 2^256 resp. 2^192, addition; the unwrap()s are "
